@@ -185,6 +185,8 @@ def cutoff_case(case):
         if m[0] == "power":
             mult *= max(abs(m[1]), 1)
     pts = cutoff.grid_points(2 * (2 * D * mult) + 1)
+    # exact special angles are enumerated too: a branch on an exact value is invisible to the polynomial argument
+    pts = list(pts) + [0.0, np.pi / 2, np.pi, -np.pi, 2 * np.pi, 3 * np.pi, 4 * np.pi]
     k = 0
     for x in pts:
         g = getattr(C, name)(float(x))
